@@ -142,6 +142,19 @@ def triage_text(rep, e3, raw_violations):
                                'witnesses': [x[0] for x in items[:6]]})
 
 
+def classify_children(v, detail):
+    import re
+    if v['kind'] == 'panic':
+        return 'children:panic'
+    info = (detail or {}).get('info') or v.get('info') or {}
+    shape = info.get('shape')
+    if shape == 'function':
+        return 'children:single-function-child-of-non-component-host-becomes-slots-object'
+    if shape == 'object':
+        return 'children:single-object-literal-child-of-non-component-host-becomes-slots-object'
+    return 'children:' + v['obligation'][:40]
+
+
 def main(argv):
     rep = common.Report(PROP)
     quick = rep.tier == 'quick'
@@ -155,6 +168,18 @@ def main(argv):
     for r in res:
         raw.extend(r.pop('violations', []))
         rep.absorb(r)
+    # kernel 2: child-list construction on element / fragment / KeepAlive / custom-element hosts (whole-module runs)
+    from . import c03, elements
+    import importlib
+    kj = [{'module': 'mirsym.checks.c03', 'spec': sp} for sp in c03.kid_jobs(rep.tier, c03.ELEM_HOSTS, lambda h: [''])]
+    res2 = common.run_jobs('mirsym.checks.elements', 'run_family_job', kj)
+    raw2 = []
+    for r in res2:
+        raw2.extend(r.pop('violations', []))
+        rep.absorb(r)
+    elements.triage(rep, PROP, importlib.import_module('mirsym.checks.c03'), raw2, classify_children)
+    rep.bounds['children'] = {'children_per_element': '<=2 (+ text-between triples) quick / <=3 thorough', 'hosts': c03.ELEM_HOSTS, 'child_kinds': sorted(c03.KIDS),
+                              'symbolic_text_length_in_child_lists': '1..3'}
     e3 = driver.E3()
     triage_text(rep, e3, raw)
     # validate the MIR encoding against the native build on the sample inputs too
@@ -173,6 +198,10 @@ def main(argv):
 
 def replay(path):
     w = json.load(open(path + '/witness.json'))
+    if 'source' in w:
+        from . import elements
+        import importlib
+        return elements.replay_dir(PROP, importlib.import_module('mirsym.checks.c03'), path)
     e3 = driver.E3()
     same, native, r = native_text(e3, w['input'])
     e3.close()
